@@ -460,7 +460,7 @@ def plan_for(prop, tier, seed, replay_file=None):
                  # complex selectors over pairs of keys / data items / annotations
                  gen_job('complexmeta_p10', 'complexmeta', 10, depth=1, style=(seed + 2) % 5, per_state=False, MaxAnns=10, MaxRes=3, MaxData=8, MaxSets=2, MaxKeys=4)]
         if tier != 'quick':
-            extra.append(gen_job('complexrel_p13d2', 'complexrel', 13, depth=2, style=(seed + 1) % 5, per_state=False, sample_mod=40, MaxAnns=10, MaxRes=2, MaxData=4))
+            extra.append(gen_job('complexrel_p13d2', 'complexrel', 13, simulate=400, simdepth=3, style=(seed + 1) % 5, per_state=False, sample_mod=3, MaxAnns=10, MaxRes=2, MaxData=4))
         return dict(jobs=store_jobs(prop, tier, seed) + extra, rule=STORE_RULE, assumptions=STORE_ASSUMPTIONS)
     if prop == 'C02':
         # annotations that list the same data item twice
